@@ -68,4 +68,29 @@ def watch : List String :=
    "process_block", "process_block_single", "process_block_headers", "is_known", "check_orphan",
    "validate_tx_against_utxo", "validate_tx_kernels", "verify_tx_lock_height"]
 
+/-! ## commit / discard decision of an extension wrapper (`txhashset::extending`, `header_extending`; phase 6) -/
+
+/-- the steps that make an extension durable: the child batch `commit()` and the backends' `sync()` -/
+def durable (f : FnShape) : List Step := f.steps.filter fun s => s.name == "commit" || s.name == "sync"
+
+/-- the local that holds the closure's result (`res = inner(..)`) and the one that holds the rollback flag
+(`rollback = <extension>.rollback`) with its initialiser, read from the `lets` table -/
+def resultLocal (f : FnShape) : List String := ((f.lets.filter fun l => l.name == "inner").map (·.vars)).flatten
+def rollbackLocal (f : FnShape) : List (List String × String) :=
+  (f.lets.filter fun l => l.name == "rollback").map fun l => (l.vars, l.init)
+
+/-- every durable step (`commit`, `sync`) and every GUARDED assignment (the writes of the new sizes / bitmap accumulator
+back into the handles) sits under exactly the guard `g`, and there is at least one durable step -/
+def commitsOnlyUnder (g : List String) (f : FnShape) : Bool :=
+  !(durable f).isEmpty && (durable f).all (fun s => s.guard == g) &&
+  (f.lets.filter fun l => !l.guard.isEmpty).all (fun l => l.guard == g)
+
+/-- number of backend `discard()` calls under the guard `g` -/
+def discardsUnder (g : List String) (f : FnShape) : Nat :=
+  (f.steps.filter fun s => s.kind == .call && s.name == "discard" && s.guard == g).length
+
+/-- the unconditional `discard()` calls of a read-only wrapper -/
+def unconditionalDiscards (f : FnShape) : Nat :=
+  (f.steps.filter fun s => s.kind == .call && s.name == "discard" && s.guard == []).length
+
 end GV.Props.XlateShape
